@@ -28,8 +28,19 @@ impl<A> ActorHandle<A> {
         (self.join_fn)()
     }
 
-    pub fn detach(self) {
-        if let Some(detach_fn) = self.detach_fn {
+    pub fn detach(mut self) {
+        if let Some(detach_fn) = self.detach_fn.take() {
+            detach_fn();
+        }
+    }
+}
+
+/// Dropping the handle must not take the actor down with it: some runtimes (smol) cancel a
+/// task when its handle is dropped, others (tokio, async-std) let it run on. Detach instead,
+/// so that dropping an `OwningAddr` or an `ActorHandle` behaves the same everywhere.
+impl<A> Drop for ActorHandle<A> {
+    fn drop(&mut self) {
+        if let Some(detach_fn) = self.detach_fn.take() {
             detach_fn();
         }
     }
